@@ -1,0 +1,171 @@
+//go:build verif
+
+package originium
+
+// Accessors for the verification harness (build tag verif only). Nothing here
+// is used by the engine; everything delegates to the unexported production
+// code so that what is judged is the real lookup / flush / compaction /
+// recovery logic.
+
+import (
+	"container/list"
+	"math/rand"
+	"time"
+
+	"github.com/B1NARY-GR0UP/originium/types"
+)
+
+// VerifLevels is a levelManager over a directory, driven directly.
+type VerifLevels struct {
+	lm *levelManager
+	db *DB
+}
+
+// VerifTable is one table as stored on disk (read back through fetch).
+type VerifTable struct {
+	Level   int
+	Idx     int
+	Entries []types.Entry
+}
+
+// VerifNewLevels builds a levelManager with a stub DB whose read mark decides
+// the version-discard watermark.
+func VerifNewLevels(dir string, l0TargetNum, levelRatio, dataBlockByteThreshold int) *VerifLevels {
+	cfg := Config{L0TargetNum: l0TargetNum, LevelRatio: levelRatio, DataBlockByteThreshold: dataBlockByteThreshold}
+	_ = cfg.validate()
+	db := &DB{
+		config:     cfg,
+		dir:        dir,
+		immutables: list.New(),
+		oracle:     newOracle(),
+	}
+	lm := newLevelManager(db)
+	db.manager = lm
+	return &VerifLevels{lm: lm, db: db}
+}
+
+// SetWatermark raises the discard watermark to w (it never goes down).
+func (v *VerifLevels) SetWatermark(w uint64) {
+	if w > v.db.oracle.readMark.DoneUntil() {
+		v.db.oracle.readMark.Done(w)
+		v.db.oracle.readMark.VerifSync()
+	}
+}
+
+func (v *VerifLevels) Watermark() uint64 { return v.db.oracle.discardAtOrBelow() }
+
+func (v *VerifLevels) Flush(entries []types.Entry) error { return v.lm.flushToL0(entries) }
+
+func (v *VerifLevels) CheckAndCompact() { v.lm.checkAndCompact() }
+
+// Lookup is what DB.search does with the tables: lower bound of key@ts, kept
+// only if it is a version of the same user key.
+func (v *VerifLevels) Lookup(key string, ts uint64) (types.Entry, bool) {
+	probe := types.KeyWithTs(key, ts)
+	e, ok := v.lm.searchLowerBound(probe)
+	if ok && types.IsSameKey(probe, e.Key) {
+		return e, true
+	}
+	return types.Entry{}, false
+}
+
+// Recover returns a fresh manager over the same directory (what Open does)
+// and the maximum version it found.
+func (v *VerifLevels) Recover() (*VerifLevels, int64) {
+	lm := newLevelManager(v.db)
+	maxVersion := lm.recover()
+	v.db.manager = lm
+	return &VerifLevels{lm: lm, db: v.db}, maxVersion
+}
+
+// Tables lists every table handle with the entries stored in its file.
+func (v *VerifLevels) Tables() []VerifTable {
+	v.lm.mu.Lock()
+	defer v.lm.mu.Unlock()
+	var out []VerifTable
+	for level, tables := range v.lm.levels {
+		for e := tables.Front(); e != nil; e = e.Next() {
+			th := e.Value.(tableHandle)
+			data := v.lm.fetch(level, th.levelIdx, th.dataBlockIndex.DataBlock)
+			out = append(out, VerifTable{Level: level, Idx: th.levelIdx, Entries: data.Entries})
+		}
+	}
+	return out
+}
+
+// BlockCount returns the number of data blocks of every table, in Tables() order.
+func (v *VerifLevels) BlockCount() []int {
+	v.lm.mu.Lock()
+	defer v.lm.mu.Unlock()
+	var out []int
+	for _, tables := range v.lm.levels {
+		for e := tables.Front(); e != nil; e = e.Next() {
+			out = append(out, len(e.Value.(tableHandle).dataBlockIndex.Entries))
+		}
+	}
+	return out
+}
+
+// FilterContains asks the bloom filter of the i-th table (Tables() order).
+func (v *VerifLevels) FilterContains(i int, userKey string) bool {
+	v.lm.mu.Lock()
+	defer v.lm.mu.Unlock()
+	n := 0
+	for _, tables := range v.lm.levels {
+		for e := tables.Front(); e != nil; e = e.Next() {
+			if n == i {
+				th := e.Value.(tableHandle)
+				return th.filter.Contains(userKey)
+			}
+			n++
+		}
+	}
+	return false
+}
+
+// Stop ends the stub oracle's watermark goroutines.
+func (v *VerifLevels) Stop() { v.db.oracle.Stop() }
+
+// VerifQueue reports the flush queue: queued memtables, capacity, frozen memtables.
+func VerifQueue(db *DB) (queued, capacity, immutables int) {
+	db.mu.RLock()
+	defer db.mu.RUnlock()
+	return len(db.flushC), cap(db.flushC), db.immutables.Len()
+}
+
+// VerifDrain waits (polling) until no frozen memtable is left, i.e. the
+// background flusher has caught up, or the timeout passes. Steering only.
+func VerifDrain(db *DB, timeout time.Duration) bool {
+	deadline := time.Now().Add(timeout)
+	for {
+		db.mu.RLock()
+		n := db.immutables.Len()
+		db.mu.RUnlock()
+		if n == 0 {
+			return true
+		}
+		if time.Now().After(deadline) {
+			return false
+		}
+		time.Sleep(200 * time.Microsecond)
+	}
+}
+
+// VerifSeedMemtable reseeds the tower-height source of the ACTIVE memtable.
+// Tower heights enter the memtable size and therefore the rotation points.
+func VerifSeedMemtable(db *DB, seed int64) {
+	db.mu.RLock()
+	mt := db.memtable
+	db.mu.RUnlock()
+	mt.mu.Lock()
+	mt.skiplist.VerifSetRand(rand.New(rand.NewSource(seed)))
+	mt.mu.Unlock()
+}
+
+// VerifDir is the directory the DB was opened on.
+func VerifDir(db *DB) string { return db.dir }
+
+// VerifStopOracle stops the two watermark goroutines of a closed DB (the
+// engine leaves them running; a harness that opens thousands of DBs in one
+// process must not).
+func VerifStopOracle(db *DB) { db.oracle.Stop() }
